@@ -374,7 +374,10 @@ impl G2Affine {
         let mut raw = blst_p2_affine::default();
         let success =
             unsafe { blst_p2_deserialize(&mut raw, bytes.as_ptr()) == BLST_ERROR::BLST_SUCCESS };
-        CtOption::new(G2Affine(raw), Choice::from(success as u8))
+        // `blst_p2_deserialize` also accepts compressed encodings (ignoring the
+        // second half of the input), which are not valid uncompressed encodings.
+        let is_uncompressed = bytes[0] & 0x80 == 0;
+        CtOption::new(G2Affine(raw), Choice::from((success & is_uncompressed) as u8))
     }
 
     /// Attempts to deserialize a compressed element.
